@@ -128,6 +128,36 @@ Example S2_hard_failure_history :
   fifo_ok (optrace ex_cfg ex_fail_ops) = true /\ out (fst (run ex_cfg ex_fail_ops)) = [].
 Proof. vm_compute. repeat split; reflexivity. Qed.
 
+(* publish() called from inside on_publish.  The operations of the model are top-level calls; what the code does
+   with a nested call is an operation SEQUENCE of the model: _do_on_publish runs the callback first, on the state in which
+   the acknowledgement arrived; publish() inside a callback only queues its packet (_packet_queue does not write while
+   _in_callback_mutex is held); then the message is popped, its slot released, and the write of the released packet (or
+   the event loop's next loop_write()) flushes the queue.  That is: transport blocks; publish(q)...; the
+   acknowledgement; transport accepts again - without the first and the last when the transport is blocked anyway.
+   Every theorem of this file quantifies over such sequences (they are conforming histories); that the real client
+   behaves like the expansion is checked by the correspondence on every run (harness/session2.py, operation rxnest:
+   hand-overs in order, writes in order, the other events as a multiset, the state at the end) and, on the implementation
+   alone, by harness/nested.py. *)
+Definition expand_nested (blocked : bool) (p : inpkt) (qs : list Z) : list op :=
+  if blocked then map OPublish qs ++ [ORx p false]
+  else OTransport TBlock :: map OPublish qs ++ [ORx p false; OTransport TAccept].
+
+(* window 1, a message queued behind it: the publish() made inside the on_publish of message 0 goes behind the queued
+   message 1 - first transmissions in publish() order 0 1 2, never more than one unacknowledged *)
+Definition ex_nested_ops : list op :=
+  [OReconnect true; ORx (IConnack 0) false; OPublish 1; OPublish 1] ++ expand_nested false (IPuback 1) [1]
+  ++ [ORx (IPuback 2) false; ORx (IPuback 3) false].
+Example S2_nested_publish :
+  let c := mkCfg 0 1 0 false false in
+  conforming c ex_nested_ops = true /\
+  map (fun e => match e with Tx _ (PPublish _ _ _ tag) => tag | _ => -1 end)
+      (filter (fun e => match e with Tx _ (PPublish _ _ _ _) => true | _ => false end) (concat (optrace c ex_nested_ops)))
+    = [0; 1; 2] /\
+  c12_window_ok c (optrace c ex_nested_ops) = true /\ c12_handed_ok c (optrace c ex_nested_ops) = true /\
+  c13_handed_ok c (optrace c ex_nested_ops) = true /\ c13_tx_ok c (optrace c ex_nested_ops) = true /\
+  c01_ok c (optrace c ex_nested_ops) = true /\ out (fst (run c ex_nested_ops)) = [].
+Proof. vm_compute. repeat split; reflexivity. Qed.
+
 (* without the conformance hypothesis the properties are false of any client: a PUBACK for a PUBLISH that is
    still queued completes the message, and the stale PUBLISH is written afterwards *)
 Example S2_conformance_needed :
